@@ -3,6 +3,7 @@ CONSTANT R = 1
 CONSTANT P2Origin = TRUE
 CONSTANT Impl = "v2"
 CONSTANT M1Order = "b2_x_n1"
+CONSTANT Slice = TRUE
 INVARIANT TypeOK
 INVARIANT UndefinedIffDegenerate
 INVARIANT LatticeOctant
